@@ -28,3 +28,8 @@ Theorem arctan2_unique_direction : forall c a b, norm2 c <> 0 -> is_arctan2 c a 
   cos a = cos b /\ sin a = sin b.
 Proof. exact arctan2_unique_direction_l. Qed.
 Print Assumptions arctan2_unique_direction.
+
+(* a non-zero vector with x >= 0 (what make_polar_vectors feeds to make_polar) gets an angle with cos >= 0 *)
+Theorem nonneg_x_nonneg_cos : forall y x a, is_arctan2 (y, x) a -> 0 < norm2 (y, x) -> 0 <= x -> 0 <= cos a.
+Proof. exact nonneg_x_nonneg_cos_l. Qed.
+Print Assumptions nonneg_x_nonneg_cos.
